@@ -643,3 +643,197 @@ Proof.
   intros f Hf. destruct H' as [Hup _]. unfold receivers_uptodate in Hup. rewrite Forall_forall in Hup.
   pose proof (Hup f Hf) as Hu. split; [exact Hu|]. apply uptodate_union. exact Hu.
 Qed.
+
+(* ================= shared list objects: the rebinding discipline is transparent ================= *)
+Lemma length_wr : forall h i v, length (wr h i v) = length h.
+Proof. induction h as [|x h IH]; intros [|i] v; cbn; try reflexivity. rewrite IH. reflexivity. Qed.
+
+Lemma rd_wr_same : forall h i v, (i < length h)%nat -> rd (wr h i v) i = v.
+Proof.
+  unfold rd. induction h as [|x h IH]; intros [|i] v H; cbn in *; try lia; [reflexivity|]. apply IH. lia.
+Qed.
+
+Lemma rd_wr_other : forall h i j v, i <> j -> rd (wr h i v) j = rd h j.
+Proof.
+  unfold rd. induction h as [|x h IH]; intros [|i] [|j] v H; cbn; try reflexivity; try contradiction.
+  apply IH. congruence.
+Qed.
+
+Lemma rd_app_l : forall h l i, (i < length h)%nat -> rd (h ++ l) i = rd h i.
+Proof. intros h l i H. unfold rd. apply app_nth1. exact H. Qed.
+
+Lemma rd_app_len : forall h v, rd (h ++ [v]) (length h) = v.
+Proof. intros h v. unfold rd. rewrite app_nth2 by lia. rewrite Nat.sub_diag. reflexivity. Qed.
+
+Definition okh (g : list name -> list name) (h0 h : heap) : Prop :=
+  (length h0 <= length h)%nat /\ forall i, (i < length h0)%nat -> rd h i = rd h0 i \/ rd h i = g (rd h0 i).
+(* cells that are final (a rewritten original cell, or a cell created later) keep their content *)
+Definition keeps (g : list name -> list name) (h0 h h' : heap) : Prop :=
+  (length h <= length h')%nat /\
+  forall i, (i < length h)%nat -> ((length h0 <= i)%nat \/ rd h i = g (rd h0 i)) -> rd h' i = rd h i.
+
+Lemma keeps_refl : forall g h0 h, keeps g h0 h h.
+Proof. intros. split; [lia | reflexivity]. Qed.
+
+Lemma keeps_trans : forall g h0 h1 h2 h3, keeps g h0 h1 h2 -> keeps g h0 h2 h3 -> keeps g h0 h1 h3.
+Proof.
+  intros g h0 h1 h2 h3 [L1 K1] [L2 K2]. split; [lia|]. intros i Hi Hc.
+  rewrite <- (K1 i Hi Hc). apply K2; [lia|]. destruct Hc as [Hc | Hc]; [left; exact Hc | right; rewrite (K1 i Hi (or_intror Hc)); exact Hc].
+Qed.
+
+Lemma wr_step : forall g (P : list name -> Prop) h0 h i,
+  (forall c, P c -> P (g c) /\ g (g c) = g c) -> (forall j, (j < length h0)%nat -> P (rd h0 j)) ->
+  okh g h0 h -> (i < length h0)%nat ->
+  let h' := wr h i (g (rd h i)) in
+  okh g h0 h' /\ keeps g h0 h h' /\ rd h' i = g (rd h0 i).
+Proof.
+  intros g P h0 h i Hg HP [L Hok] Hi h'.
+  assert (Es : g (rd h i) = g (rd h0 i)).
+  { destruct (Hok i Hi) as [E | E]; rewrite E; [reflexivity|]. apply Hg. apply HP. exact Hi. }
+  assert (Ei : rd h' i = g (rd h0 i)) by (unfold h'; rewrite rd_wr_same by lia; exact Es).
+  split; [|split; [|exact Ei]].
+  - split; [unfold h'; rewrite length_wr; exact L|]. intros j Hj. destruct (Nat.eq_dec i j) as [E | E].
+    + subst j. right. exact Ei.
+    + unfold h'. rewrite rd_wr_other by exact E. apply Hok. exact Hj.
+  - split; [unfold h'; rewrite length_wr; lia|]. intros j Hj Hc. destruct (Nat.eq_dec i j) as [E | E].
+    + subst j. destruct Hc as [Hc | Hc]; [lia|]. rewrite Ei. symmetry. exact Hc.
+    + unfold h'. apply rd_wr_other. exact E.
+Qed.
+
+Lemma sigs_step : forall g (P : list name -> Prop) h0,
+  (forall c, P c -> P (g c) /\ g (g c) = g c) -> (forall j, (j < length h0)%nat -> P (rd h0 j)) ->
+  forall sigs h, okh g h0 h -> Forall (fun s => (hs_cell s < length h0)%nat) sigs ->
+  let h' := fold_left (fun h s => wr h (hs_cell s) (g (rd h (hs_cell s)))) sigs h in
+  okh g h0 h' /\ keeps g h0 h h' /\ Forall (fun s => rd h' (hs_cell s) = g (rd h0 (hs_cell s))) sigs.
+Proof.
+  intros g P h0 Hg HP. induction sigs as [|s r IH]; intros h Hok Hr; cbn [fold_left].
+  - split; [exact Hok|]. split; [apply keeps_refl | constructor].
+  - inversion Hr as [|s' r' Hs Hr']; subst.
+    destruct (wr_step g P h0 h (hs_cell s) Hg HP Hok Hs) as (Hok1 & K1 & E1).
+    destruct (IH _ Hok1 Hr') as (Hok2 & K2 & F2).
+    split; [exact Hok2|]. split; [eapply keeps_trans; eassumption|]. constructor; [|exact F2].
+    destruct K2 as [L2 K2]. rewrite K2; [exact E1 | | right; exact E1].
+    rewrite length_wr. destruct Hok as [L _]. lia.
+Qed.
+
+(* an output frame whose cells are all final *)
+Definition fixedf (g : list name -> list name) (h0 h : heap) (f' : hframe) : Prop :=
+  ((hf_tx f' < length h0)%nat /\ rd h (hf_tx f') = g (rd h0 (hf_tx f'))) /\
+  Forall (fun s => (hs_cell s < length h0)%nat /\ rd h (hs_cell s) = g (rd h0 (hs_cell s))) (hf_sigs f') /\
+  ((length h0 <= hf_rx f')%nat /\ (hf_rx f' < length h)%nat).
+
+Lemma fixedf_keeps : forall g h0 h h' f', okh g h0 h -> fixedf g h0 h f' -> keeps g h0 h h' ->
+  fixedf g h0 h' f' /\ deref_frame h' f' = deref_frame h f'.
+Proof.
+  intros g h0 h h' f' [L _] [[Ht Et] [Fs [Hr1 Hr2]]] [L' K].
+  assert (Etx : rd h' (hf_tx f') = rd h (hf_tx f')) by (apply K; [lia | right; exact Et]).
+  assert (Erx : rd h' (hf_rx f') = rd h (hf_rx f')) by (apply K; [lia | left; exact Hr1]).
+  assert (Es : forall s, In s (hf_sigs f') -> rd h' (hs_cell s) = rd h (hs_cell s)).
+  { intros s Hs. rewrite Forall_forall in Fs. destruct (Fs s Hs) as [Hc Ec]. apply K; [lia | right; exact Ec]. }
+  split.
+  - split; [split; [exact Ht | rewrite Etx; exact Et]|]. split; [|split; [exact Hr1 | lia]].
+    rewrite Forall_forall in *. intros s Hs. destruct (Fs s Hs) as [Hc Ec]. split; [exact Hc | rewrite (Es s Hs); exact Ec].
+  - unfold deref_frame. rewrite Etx, Erx. f_equal. apply map_ext_in. intros s Hs. unfold deref_sig. rewrite (Es s Hs). reflexivity.
+Qed.
+
+Lemma frame_step : forall g (P : list name -> Prop) h0,
+  (forall c, P c -> P (g c) /\ g (g c) = g c) -> (forall j, (j < length h0)%nat -> P (rd h0 j)) ->
+  forall h acc f, okh g h0 h -> hframe_in_range h0 f ->
+  let r := hrewrite_frame g (h, acc) f in
+  okh g h0 (fst r) /\ keeps g h0 h (fst r) /\
+  exists f', snd r = acc ++ [f'] /\ fixedf g h0 (fst r) f' /\
+             deref_frame (fst r) f' = rewrite_frame g (deref_frame h0 f).
+Proof.
+  intros g P h0 Hg HP h acc f Hok [Htx Hsg] r.
+  destruct (wr_step g P h0 h (hf_tx f) Hg HP Hok Htx) as (Hok1 & K1 & E1).
+  destruct (sigs_step g P h0 Hg HP (hf_sigs f) _ Hok1 Hsg) as (Hok2 & K2 & F2).
+  set (h2 := hrewrite_cells g f h) in *.
+  assert (Eh2 : fold_left (fun h s => wr h (hs_cell s) (g (rd h (hs_cell s)))) (hf_sigs f)
+                          (wr h (hf_tx f) (g (rd h (hf_tx f)))) = h2) by reflexivity.
+  rewrite Eh2 in Hok2, K2, F2.
+  assert (L2 : (length h0 <= length h2)%nat) by apply Hok2.
+  assert (Et2 : rd h2 (hf_tx f) = g (rd h0 (hf_tx f))).
+  { destruct K2 as [_ K2]. rewrite K2; [exact E1 | rewrite length_wr; destruct Hok; lia | right; exact E1]. }
+  set (rxv := dedup (flat_map (fun s => rd h2 (hs_cell s)) (hf_sigs f))).
+  assert (Er : fst r = h2 ++ [rxv]) by reflexivity.
+  assert (Kapp : keeps g h0 h2 (h2 ++ [rxv])).
+  { split; [rewrite app_length; cbn; lia|]. intros i Hi _. apply rd_app_l. exact Hi. }
+  split.
+  { rewrite Er. split; [rewrite app_length; cbn; lia|]. intros i Hi. rewrite rd_app_l by lia. apply Hok2. exact Hi. }
+  split.
+  { rewrite Er. eapply keeps_trans; [|exact Kapp]. eapply keeps_trans; eassumption. }
+  exists (mkHFrame (hf_name f) (hf_tx f) (length h2) (hf_sigs f) (hf_pay f)).
+  split; [reflexivity|].
+  assert (Fs : Forall (fun s => (hs_cell s < length h0)%nat /\ rd (h2 ++ [rxv]) (hs_cell s) = g (rd h0 (hs_cell s))) (hf_sigs f)).
+  { rewrite Forall_forall in *. intros s Hs. split; [apply Hsg; exact Hs|]. rewrite rd_app_l by (specialize (Hsg s Hs); cbn in Hsg; lia).
+    apply F2. exact Hs. }
+  split.
+  { rewrite Er. split; [split; [exact Htx | cbn; rewrite rd_app_l by lia; exact Et2]|]. split; [exact Fs|].
+    cbn. rewrite app_length. cbn. lia. }
+  rewrite Er. unfold deref_frame, rewrite_frame, update_receiver. cbn.
+  rewrite rd_app_l by lia. rewrite Et2, rd_app_len. rewrite map_map. f_equal.
+  - unfold rxv. f_equal. rewrite flat_map_map'. cbn. apply flat_map_ext_in. intros s Hs.
+    rewrite Forall_forall in F2. apply F2. exact Hs.
+  - apply map_ext_in. intros s Hs. unfold deref_sig, set_sreceivers. cbn. rewrite Forall_forall in Fs.
+    destruct (Fs s Hs) as [_ E]. rewrite E. reflexivity.
+Qed.
+
+Lemma Forall2_snoc : forall (A B : Type) (R : A -> B -> Prop) l1 l2 a b,
+  Forall2 R l1 l2 -> R a b -> Forall2 R (l1 ++ [a]) (l2 ++ [b]).
+Proof. intros A B R l1 l2 a b H Hab. apply Forall2_app; [exact H | constructor; [exact Hab | constructor]]. Qed.
+
+Lemma Forall2_weaken : forall (A B : Type) (R S : A -> B -> Prop) l1 l2,
+  (forall a b, R a b -> S a b) -> Forall2 R l1 l2 -> Forall2 S l1 l2.
+Proof. intros A B R S l1 l2 H F. induction F; constructor; auto. Qed.
+
+Lemma hrewrite_fold : forall g (P : list name -> Prop) h0,
+  (forall c, P c -> P (g c) /\ g (g c) = g c) -> (forall j, (j < length h0)%nat -> P (rd h0 j)) ->
+  forall fs done h acc, okh g h0 h -> Forall (hframe_in_range h0) fs ->
+  Forall2 (fun f f' => fixedf g h0 h f' /\ deref_frame h f' = rewrite_frame g (deref_frame h0 f)) done acc ->
+  let r := fold_left (hrewrite_frame g) fs (h, acc) in
+  Forall2 (fun f f' => deref_frame (fst r) f' = rewrite_frame g (deref_frame h0 f)) (done ++ fs) (snd r).
+Proof.
+  intros g P h0 Hg HP. induction fs as [|f fs IH]; intros done h acc Hok Hr Hd; cbn [fold_left].
+  - rewrite app_nil_r. cbn. eapply Forall2_weaken; [|exact Hd]. intros a b [_ E]. exact E.
+  - inversion Hr as [|f0 fs0 Hf Hr']; subst.
+    destruct (frame_step g P h0 Hg HP h acc f Hok Hf) as (Hok' & K & f' & Es & Fx & Ed).
+    remember (hrewrite_frame g (h, acc) f) as st eqn:Est. destruct st as [h' acc'].
+    cbn [fst snd] in *. subst acc'.
+    replace (done ++ f :: fs) with ((done ++ [f]) ++ fs) by (rewrite <- app_assoc; reflexivity).
+    apply IH; [exact Hok' | exact Hr'|]. apply Forall2_snoc; [|split; assumption].
+    eapply Forall2_weaken; [|exact Hd]. intros a b [Fa Ea].
+    destruct (fixedf_keeps g h0 h h' b Hok Fa K) as [Fb Eb]. split; [exact Fb | rewrite Eb; exact Ea].
+Qed.
+
+Lemma Forall2_map_eq : forall (A B C : Type) (u : B -> C) (v : A -> C) l1 l2,
+  Forall2 (fun a b => u b = v a) l1 l2 -> map u l2 = map v l1.
+Proof. intros A B C u v l1 l2 H. induction H; cbn; [reflexivity | congruence]. Qed.
+
+Lemma shared_lists_transparent : forall (g : list name -> list name) (P : list name -> Prop) h fs,
+  (forall c, P c -> P (g c) /\ g (g c) = g c) ->
+  Forall P h -> Forall (hframe_in_range h) fs ->
+  let r := hrewrite_all g h fs in
+  map (deref_frame (fst r)) (snd r) = map (fun f => rewrite_frame g (deref_frame h f)) fs.
+Proof.
+  intros g P h fs Hg HP Hr r. apply Forall2_map_eq.
+  assert (HP' : forall j, (j < length h)%nat -> P (rd h j)).
+  { intros j Hj. rewrite Forall_forall in HP. apply HP. unfold rd. apply nth_In. exact Hj. }
+  assert (Hok : okh g h h) by (split; [lia | intros i _; left; reflexivity]).
+  exact (hrewrite_fold g P h Hg HP' fs [] h [] Hok Hr (Forall2_nil _)).
+Qed.
+
+(* the two rewrites of the ECU operations are idempotent on duplicate-free lists *)
+Lemma rename_in_idem : forall old new, new <> old ->
+  forall c, NoDup c -> NoDup (rename_in old new c) /\ rename_in old new (rename_in old new c) = rename_in old new c.
+Proof.
+  intros old new Hne c Hc. split; [apply rename_in_NoDup; exact Hc|].
+  pose proof (rename_in_no_old old new c Hne Hc) as H. unfold rename_in at 1.
+  apply mem_false in H. rewrite H. reflexivity.
+Qed.
+
+Lemma del_name_idem : forall n c, NoDup c -> NoDup (del_name n c) /\ del_name n (del_name n c) = del_name n c.
+Proof.
+  intros n c Hc. split; [apply del_name_NoDup; exact Hc|].
+  rewrite (del_name_nodup n c Hc). rewrite del_name_nodup by (apply NoDup_filter'; exact Hc).
+  rewrite filter_filter. apply filter_ext. intro x. apply andb_diag.
+Qed.
